@@ -6,4 +6,5 @@ INVARIANT C14_Terminates
 INVARIANT C14_Datagram
 INVARIANT C14_Objects
 INVARIANT C14_Parsed
+INVARIANT C14_ObjectsInside
 INVARIANT NoPanic
